@@ -282,6 +282,7 @@ impl Run {
                     .name(format!("vshard-{t}"))
                     .stack_size(256 << 20)
                     .spawn_scoped(s, move || loop {
+                        pin_to_cpu(t);
                         let i = next.fetch_add(1, Ordering::Relaxed);
                         if i >= n {
                             break;
@@ -395,4 +396,26 @@ pub fn threads() -> usize {
         .ok()
         .and_then(|s| s.parse().ok())
         .unwrap_or_else(|| std::thread::available_parallelism().map(|n| n.get()).unwrap_or(4).min(16))
+}
+
+/// Pins the calling thread (and every thread it spawns later: affinity is inherited) to one CPU.
+/// Schedule exploration hands a baton between the worker threads of one shard thousands of
+/// times per second; keeping them on one core turns each hand-off into a plain context switch
+/// instead of a cross-CPU wake-up (an order of magnitude cheaper inside a VM).
+pub fn pin_to_cpu(slot: usize) {
+    thread_local! { static PINNED: std::cell::Cell<bool> = const { std::cell::Cell::new(false) }; }
+    if PINNED.with(|p| p.replace(true)) {
+        return;
+    }
+    if std::env::var("VERIF_NO_PIN").is_ok() {
+        return;
+    }
+    let ncpu = std::thread::available_parallelism().map(|n| n.get()).unwrap_or(1);
+    // SAFETY: plain libc call on a zero-initialised cpu_set_t owned by this frame.
+    unsafe {
+        let mut set: libc::cpu_set_t = std::mem::zeroed();
+        libc::CPU_ZERO(&mut set);
+        libc::CPU_SET(slot % ncpu, &mut set);
+        libc::sched_setaffinity(0, std::mem::size_of::<libc::cpu_set_t>(), &set);
+    }
 }
